@@ -741,6 +741,16 @@ class _NPProxy:
         return bool(np.all(self.isclose(a, b, rtol=rtol, atol=atol, equal_nan=equal_nan)))
 
 
+def shim_hash_array(a):
+    """mici.utils.hash_array hashes the BYTES of an array; the bytes of an object array are pointers.  The symbolic stand-in hashes the (expanded) entries, so
+    that arrays with equal contents hash equally -- as equal float arrays do -- and code that keys dictionaries / sets on matrices sees the same collisions"""
+    a = np.asarray(a)
+    if a.dtype != object:
+        from mici import utils as _u
+        return _u.hash_array(a)
+    return hash((a.shape, tuple(str(sp.expand(_e(x))) for x in a.flat)))
+
+
 @contextlib.contextmanager
 def shimmed(*modules):
     saved = []
@@ -748,7 +758,7 @@ def shimmed(*modules):
     sla = _NS(solve_triangular=shim_solve_triangular, lu_factor=shim_lu_factor, lu_solve=shim_lu_solve, sqrtm=shim_sqrtm, block_diag=shim_block_diag,
               cho_solve=shim_cho_solve)
     for m in modules:
-        for name, val in (("nla", nla), ("sla", sla), ("np", _NPProxy())):
+        for name, val in (("nla", nla), ("sla", sla), ("np", _NPProxy()), ("hash_array", shim_hash_array)):
             if hasattr(m, name):
                 saved.append((m, name, getattr(m, name)))
                 setattr(m, name, val)
